@@ -118,22 +118,35 @@ func r12b(c *core.Ctx) {
 	// cond is true only via a scan of the QUERY's additionals for type OPT
 	okScan := false
 	desc := strings.Join(truthConds(cond), " OR ")
-	if phi, ok := cond.(*ssa.Phi); ok {
+	if phi0, ok := cond.(*ssa.Phi); ok {
 		okScan = true
-		for i, e := range phi.Edges {
-			if b, isC := core.ConstBool(e); isC && b {
-				pred := phi.Block().Preds[i]
-				if !hasCond(pred, ".Hdr().Type == 41)", true) {
+		// the flag may be carried around the scan loop (phi of phis): every leaf is a constant, and `true` enters only
+		// on an edge where the scanned record is an OPT of m.Additionals
+		seen := map[*ssa.Phi]bool{}
+		var walk func(phi *ssa.Phi)
+		walk = func(phi *ssa.Phi) {
+			if seen[phi] {
+				return
+			}
+			seen[phi] = true
+			for i, e := range phi.Edges {
+				if b, isC := core.ConstBool(e); isC && b {
+					pred := phi.Block().Preds[i]
+					if !hasCond(pred, ".Hdr().Type == 41)", true) {
+						okScan = false
+					}
+					// the scanned records come from m.Additionals
+					if !strings.Contains(condList(pred), "m.Additionals") && !rangesOver(hm, pred, "m.Additionals") {
+						okScan = false
+					}
+				} else if p2, isPhi := e.(*ssa.Phi); isPhi {
+					walk(p2)
+				} else if !isC {
 					okScan = false
 				}
-				// the scanned records come from m.Additionals
-				if !strings.Contains(condList(pred), "m.Additionals") && !rangesOver(hm, pred, "m.Additionals") {
-					okScan = false
-				}
-			} else if !isC {
-				okScan = false
 			}
 		}
+		walk(phi0)
 	}
 	// or the scan lives in a helper called with the query: it returns true only on the OPT-type edge of a scan of its
 	// parameter's additionals, and false otherwise
